@@ -156,6 +156,19 @@ func runHealCase(c *checkCtx, cs healCase, can *canary) (res healResult) {
 	waitSessions := func(s *poolServer, n int) bool {
 		return waitUntil(10*time.Second, func() bool { return len(s.sessionList()) == n })
 	}
+	// firstOf: one registered session of a server (a session is registered a moment after its handshake; under load the list
+	// may still be empty when a scenario gets here). nil: none showed up in 10 s.
+	firstOf := func(s *poolServer) []*Session {
+		var l []*Session
+		waitUntil(10*time.Second, func() bool { l = s.sessionList(); return len(l) > 0 })
+		if len(l) == 0 {
+			if res.inconcl == "" {
+				res.inconcl = "no session registered at the server when the scenario wanted to lose one"
+			}
+			return nil
+		}
+		return l[:1]
+	}
 	if !waitSessions(srv, cs.Pools) {
 		stopCallers()
 		res.inconcl = "server did not register all sessions"
@@ -217,8 +230,7 @@ func runHealCase(c *checkCtx, cs healCase, can *canary) (res healResult) {
 	time.Sleep(time.Duration(5+rng.Intn(20)) * time.Millisecond)
 	switch cs.Scenario {
 	case "one-lost":
-		ss := srv.sessionList()
-		lose(ss[:1])
+		lose(firstOf(srv))
 		if expectHeal("one session lost") {
 			expectAccepted(int64(cs.Pools)+1, "one session lost")
 		}
@@ -336,12 +348,12 @@ func runHealCase(c *checkCtx, cs healCase, can *canary) (res healResult) {
 			}
 			// and a loss of a new-epoch session now heals like any other
 			if len(res.viol) == 0 {
-				lose(nw.sessionList()[:1])
+				lose(firstOf(nw))
 				expectHeal("new-epoch session lost after the old server exited")
 			}
 		} else {
 			// F3 directed: lose a new-epoch session while the session it replaced is still open
-			lose(nw.sessionList()[:1])
+			lose(firstOf(nw))
 			can.reset()
 			healed := waitUntil(healBound, func() bool {
 				world.RLock()
@@ -370,7 +382,7 @@ func runHealCase(c *checkCtx, cs healCase, can *canary) (res healResult) {
 	case "loss-then-hot-restart":
 		// a session is lost and, before its rebuild timer fires, the server hot-restarts: the dead session cannot take part in the
 		// hot restart, so its slot is not replaced; it must still be rebuilt (against the new server) like any other lost session
-		lose(srv.sessionList()[:1])
+		lose(firstOf(srv))
 		nw, err := startPoolServerAt(path, 2, true)
 		if err != nil {
 			res.inconcl = "new listener: " + err.Error()
@@ -417,7 +429,7 @@ func runHealCase(c *checkCtx, cs healCase, can *canary) (res healResult) {
 			}
 		})
 		defer healParkers.Delete(sm)
-		lose(srv.sessionList()[:1])
+		lose(firstOf(srv))
 		select {
 		case <-atRebuild:
 		case <-time.After(interval + 8*time.Second):
